@@ -1,30 +1,46 @@
 #!/usr/bin/env python3
-"""tools/seeds_regress.py [lanes]: re-run, for every stored seeded change, the quick check named in its
-detected_by (on a scratch worktree of /repo) and report the ones that are no longer caught."""
+"""tools/seeds_regress.py [lanes] [done-file]: re-run, for every stored seeded change, the quick check named
+in its detected_by (on a scratch worktree of /repo; only the harness named first, falling back to the whole
+check) and report the ones that are no longer caught.  Lines of an earlier run given as done-file are skipped."""
 import glob, json, os, re, subprocess, sys
 from concurrent.futures import ThreadPoolExecutor
 lanes = int(sys.argv[1]) if len(sys.argv) > 1 else 2
+DONE = set()
+if len(sys.argv) > 2 and os.path.exists(sys.argv[2]):
+    for ln in open(sys.argv[2]):
+        if ln.startswith('ok'):
+            DONE.add(ln.split()[1])
 todo = []
 for d in sorted(glob.glob('/verif/seeded/*')):
     m = json.load(open(d + '/meta.json'))
     by = ' '.join(m.get('detected_by') or [])
-    if 'UNDETECTED' in by:
+    if 'UNDETECTED' in by or os.path.basename(d) in DONE:
         continue
     mm = re.search(r'C\d\d', by)
     prop = mm.group(0) if mm else os.path.basename(d)[:3]
-    todo.append((os.path.basename(d), prop, d + '/patch.diff'))
+    hm = re.search(r'C\d\d(?: quick)?:\s*([a-z_0-9]+)', by)
+    todo.append((os.path.basename(d), prop, d + '/patch.diff', hm.group(1) if hm else ''))
+
+
+def run(prop, patch, env):
+    r = subprocess.run(['/verif/tools/seed_check_wt.sh', prop, patch], capture_output=True, text=True, env=env)
+    out = r.stdout.strip().split('\n')[-1][:160]
+    return out, out.startswith('exit=1') and ' 0 violations' not in out
 
 
 def one(t):
-    name, prop, patch = t
+    name, prop, patch, only = t
     env = dict(os.environ, SYMX_PROCS=str(max(2, 16 // lanes)))
-    r = subprocess.run(['/verif/tools/seed_check_wt.sh', prop, patch], capture_output=True, text=True, env=env)
-    out = r.stdout.strip().split('\n')[-1][:160]
-    ok = out.startswith('exit=1') and ' 0 violations' not in out
-    print(('ok   ' if ok else 'MISS ') + f"{name} [{prop}] {out}", flush=True)
+    if only:
+        env['EXTRA'] = '--only ' + only
+    out, ok = run(prop, patch, env)
+    if not ok and only:
+        env.pop('EXTRA', None)
+        out, ok = run(prop, patch, env)
+    print(('ok   ' if ok else 'MISS ') + f"{name} [{prop} {only}] {out}", flush=True)
     return ok
 
 
 with ThreadPoolExecutor(lanes) as ex:
     res = list(ex.map(one, todo))
-print(f"{sum(res)}/{len(res)} still caught")
+print(f"{sum(res)}/{len(res)} still caught (+{len(DONE)} from the earlier run)")
